@@ -33,7 +33,23 @@ Space
  sub = "vg-cgmy"     every VG parameter set x (r,d) x T against CGMY(c = 1/nu, g = 1/eta_m, m = 1/eta_p, y = 0), the
                      parametrisation used by rpylib/tests/numerical/test_cos_method.py.
  sub = "cf-degenerate"  CFBlackScholes in its degenerate branch (sigma < 1e-8 or T < 1e-8 or spot < 1e-8): scalar strikes on a
-                     9-point lattice including K = F exactly.
+                     9-point lattice including K = F exactly; and AT the thresholds (sigma = 1e-8, T = 1e-8, both) and just above
+                     (sigma = 1.0000001e-8), where the regular formula answers: parity, forward, intrinsic <= price <= intrinsic +
+                     df F sigma sqrt(T) / sqrt(2 pi) (the at-the-money time value bounds every time value), digital = indicator.
+ sub = "forms"       BS / HEM / CGMY 0.5 (thorough: + Merton, VG, CGMY 1.2, BS spot 2500; three maturities) at T = 1, COS constants default
+                     (and (4096, 10) on BS; thorough: on all, and (1000, 12) with twice the length), every public entry point
+                     (COS put / call / digital / forward / cdf / price(call product) / density / density_log, FFT call / put,
+                     model.cdf / model.density, closed form call / put / digital / forward):
+                     A. one LONG strike vector of ceil(1.07 * 2^22 / n) + 3 strikes (n = number of COS terms behind the entry:
+                        452 for n = 10000, 1099 for 4096, 2247 for model.cdf; thorough also 2^23 / 1000) against element-wise
+                        scalar calls on every 7th, the first 3 and the last 12 strikes (FFT: 4 strikes);
+                     B. argument forms of the strikes {int-dtype array, list, tuple, shape (1,n), empty, Python int, numpy int,
+                        numpy float, 0-d array, one-element array}, of the maturity {Python int, numpy float, 0-d array} and
+                        keywords, against the usual form; forms the unchanged tree rejects with TypeError (FORMS_REJECTED: lists /
+                        tuples where the entry divides by the strikes) are counted, not judged;
+                     C. the caller's array compared before / after the call, then modified and the query repeated;
+                     D. copy.copy / copy.deepcopy / dill round trip of each pricer and of the model (new pricer on the copy):
+                        same answers bit for bit; deep copies keep their answers when the ORIGINAL model's d is re-assigned.
  sub = "pricer-history"  ONE pricer object (COS, FFT, closed form) of BS / HEM / CGMY 0.5 (thorough: + Merton, VG, CGMY 1.2) taken
                      through ordered sequences of steps.  Queries: call / put with vector and scalar strikes at T in {0.5, 1, 2};
                      COS also digital, cdf, density at two point sets of equal length at one maturity, density_log, price(call
@@ -71,6 +87,7 @@ assumptions; it is an evaluated bound, not a proof over the parameter box)
  model routes  |model.cdf - (1 - digital/df)| <= (tau_d + tau_d(n=2000, L=20))/df, in [0,1] and non-decreasing up to that budget;
                model.density(T)(s) = density of a default COS pricer (1e-9 relative); COS density asked twice = itself
  route         "reinit" twin: put and digital equal those of the directly constructed model (1e-11 max(K,S0,F) / 1e-11)
+ forms         see sub = "forms": 1e-12 max(K,S0) for prices, 1e-12 for probabilities and s * density; copies bit for bit
  history       the last query of every sequence = the answer of a fresh pricer on a fresh model (bit for bit; 1e-12 max(K,S0)
                after set-r / set-d, compared with a fresh model built with the new rates); the second pricer of `other`
                within 1e-7 (COS) / 1e-5 (FFT) of the Black-Scholes closed form (a-priori budgets there: < 1e-8 / 2e-6)
@@ -85,8 +102,10 @@ an unbounded density (density positivity skipped).
 Exclusions (statement silent): strikes outside the lattice; (n, L) other than the three sets above; FFT `eta` / `N` re-assigned
 (the pricer derives its log-strike grid from them once, in the constructor; there are no constructor arguments); CFBlackScholes
 call/put with array strikes in the degenerate branch (documented as float) and digital with a scalar strike there;
-CFVarianceGammaModel.call (raises NotImplementedError by design); non-exponential models; r < 0; strikes as Python lists
-(COSPricer divides by them: TypeError; documented as vectors).  Histories NOT enumerated because the objects are not built
+CFVarianceGammaModel.call (raises NotImplementedError by design); non-exponential models; r < 0; strikes as Python lists /
+tuples where the unchanged tree raises TypeError (FORMS_REJECTED; documented as vectors); float32 strike arrays (answered in
+float32 arithmetic, 1e-6 off: no statement about the precision of the input); column vectors of shape (n,1) (COS put / call /
+density broadcast them against the (n,) result into n x n values: the docstrings say "strike vector").  Histories NOT enumerated because the objects are not built
 for them (observed on the unchanged tree, see the report): `model.spot` re-assigned (the model keeps log_spot from its
 constructor, so the model itself is inconsistent: COS prices follow the new spot, the COS density and the FFT pricer the old
 one); `model.r` re-assigned under an existing FFTPricer (it copies r in its constructor; the library never does this).
@@ -241,6 +260,10 @@ def cases(tier):
     for sigma, T in ((0.0, 1.0), (5e-9, 1.0), (0.2, 0.0), (0.2, 5e-9), (0.0, 0.0)):
         for (r, d) in A.RATES:
             out.append({"sub": "cf-degenerate", "sigma": sigma, "T": T, "r": r, "d": d, "spot": 100.0})
+    # exact ties at the thresholds of the branch (`<`: the regular formula is used AT the threshold) and just above
+    for sigma, T in ((1e-8, 1.0), (0.2, 1e-8), (1e-8, 1e-8), (1.0000001e-8, 1.0)):
+        for (r, d) in A.RATES:
+            out.append({"sub": "cf-degenerate", "sigma": sigma, "T": T, "r": r, "d": d, "spot": 100.0, "regular": True})
     # the third way into the degenerate branch: spot below the threshold
     for (r, d) in A.RATES:
         out.append({"sub": "cf-degenerate", "sigma": 0.2, "T": 1.0, "r": r, "d": d, "spot": 5e-9})
@@ -281,6 +304,18 @@ def cases(tier):
                         out.append(dict(c, via="reinit"))
                 else:
                     out.append(dict(c, via="reinit"))
+    # argument forms, long strike vectors against element-wise calls, caller's arrays, copies
+    form_specs = [_spec("bs", {"sigma": 0.2}, 0.05, 0.02), _spec("hem", HEM[0], 0.02, 0.0), _spec("cgmy", {"c": 1.0, "g": 15.0, "m": 20.0, "y": 0.5}, 0.02, 0.0)]
+    if thorough:
+        form_specs += [_spec("merton", MERTON[0], 0.05, 0.02), _spec("vg", VG[0], 0.02, 0.0), _spec("cgmy", {"c": 1.0, "g": 15.0, "m": 20.0, "y": 1.2}, 0.02, 0.0),
+                       _spec("bs", {"sigma": 0.3}, 0.02, 0.0, 2500.0)]
+    for i, spec in enumerate(form_specs):
+        for T in ((1.0,) if not thorough else (0.5, 1.0, 2.0)):
+            out.append({"sub": "forms", "spec": spec, "T": T, "entries": 2 ** 22})
+            if i == 0 or thorough:
+                out.append({"sub": "forms", "spec": spec, "T": T, "cos": [4096, 10], "entries": 2 ** 22})
+            if thorough:
+                out.append({"sub": "forms", "spec": spec, "T": T, "cos": [1000, 12], "entries": 2 ** 23})
     # histories on ONE pricer object (queries at several maturities / strike sets, state-changing public operations in
     # between): the relations of the statement are per (model, maturity, strike), so the answer of a pricer object must not
     # depend on what it - or any other pricer - was asked before
@@ -294,6 +329,8 @@ def cases(tier):
         for pricer in ("cf", "cos", "fft"):
             if pricer == "cf" and spec["family"] != "bs":
                 continue
+            if pricer == "fft" and not thorough and spec["family"] == "hem":
+                continue  # the FFT pricer's code does not branch on the family: two families in quick
             pats = ["pairs", "qoq", "ooq", "qqq"]
             if pricer == "fft" and not thorough:
                 pats = ["pairs", "qoq", "ooq"]  # a 2^18 transform per query: three queries in a row are in the thorough tier
@@ -804,9 +841,15 @@ def _check_cf_degenerate(sh, case):
     spec = _spec("bs", {"sigma": sigma}, r, d, S0)
     model = A.make_model(spec)
     cfp = model.closed_form
-    icls = "bs:degenerate:" + ("sigma<eps" if sigma < 1e-8 else "sigma>eps") + ":" + ("T<eps" if T < 1e-8 else "T>eps")
+    def _c(v):
+        return "<eps" if v < 1e-8 else ("=eps" if v == 1e-8 else ">eps")
+
+    icls = "bs:degenerate:sigma" + _c(sigma) + ":T" + _c(T)
     if S0 < 1e-8:
         icls += ":spot<eps"
+    regular = bool(case.get("regular"))  # at / just above the thresholds the regular formula answers: nearly degenerate
+    if regular:
+        icls += ":regular-branch"
     sh.cls("family:" + icls)
     df = math.exp(-r * T)
     F = S0 * math.exp((r - d) * T)
@@ -823,8 +866,16 @@ def _check_cf_degenerate(sh, case):
     ref_fwd = df * (F - Ka)
     rep.close("cf-degenerate", "CFBlackScholes.forward", "not-discounted-forward-minus-strike", fwds, ref_fwd, tol, Ka)
     rep.close("cf-degenerate", "CFBlackScholes.call-put", "call-minus-put-not-forward", calls - puts, ref_fwd, tol, Ka)
-    rep.close("cf-degenerate", "CFBlackScholes.call", "not-discounted-intrinsic", calls, np.maximum(0.0, ref_fwd), tol, Ka)
-    rep.close("cf-degenerate", "CFBlackScholes.put", "not-discounted-intrinsic", puts, np.maximum(0.0, -ref_fwd), tol, Ka)
+    if regular:
+        # time value of a Black-Scholes option <= its at-the-money value df F (2 N(s/2) - 1) <= df F s / sqrt(2 pi), s = sigma sqrt(T)
+        tv = df * F * sigma * math.sqrt(T) / math.sqrt(2.0 * math.pi)
+        rep.le("cf-degenerate", "CFBlackScholes.call", "below-discounted-intrinsic", np.maximum(0.0, ref_fwd), calls, tol, Ka)
+        rep.le("cf-degenerate", "CFBlackScholes.call", "time-value-above-at-the-money-bound", calls, np.maximum(0.0, ref_fwd), tv + tol, Ka)
+        rep.le("cf-degenerate", "CFBlackScholes.put", "below-discounted-intrinsic", np.maximum(0.0, -ref_fwd), puts, tol, Ka)
+        rep.le("cf-degenerate", "CFBlackScholes.put", "time-value-above-at-the-money-bound", puts, np.maximum(0.0, -ref_fwd), tv + tol, Ka)
+    else:
+        rep.close("cf-degenerate", "CFBlackScholes.call", "not-discounted-intrinsic", calls, np.maximum(0.0, ref_fwd), tol, Ka)
+        rep.close("cf-degenerate", "CFBlackScholes.put", "not-discounted-intrinsic", puts, np.maximum(0.0, -ref_fwd), tol, Ka)
     dg = _vec(cfp.digital(Ka, T), len(Ks))
     away = np.abs(Ka / F - 1.0) > 1e-6  # at K = F the value of a zero-variance digital is a convention
     rep.close("cf-degenerate", "CFBlackScholes.digital", "not-discounted-indicator", dg, df * (F > Ka), 1e-15 + 0 * Ka, Ka, mask=away)
@@ -847,22 +898,22 @@ def _hist_menu(kind, S0):
     Kv = [0.8 * S0, S0, 1.25 * S0]
     core = [("call", 0.5, Kv), ("call", 2.0, Kv), ("put", 1.0, [0.9 * S0]), ("put", 2.0, [0.8 * S0, 1.1 * S0])]
     if kind == "fft":
-        return core, 4, ["other", "copy", "set-d", "set-alpha"]
+        return core, 4, ["other", "copy", "copy1", "dill", "set-d", "set-alpha"]
     if kind == "cf":
         q = core + [("digital", 1.0, Kv), ("forward", 2.0, Kv), ("butterfly", 0.5, [0.9 * S0, S0, 1.1 * S0]), ("call", 1.0, Kv),
                     ("digital", 2.0, [S0, 1.1 * S0])]
-        return q, 4, ["other", "copy", "set-r", "set-d"]
+        return q, 4, ["other", "copy", "copy1", "dill", "set-r", "set-d"]
     q = core + [("digital", 1.0, Kv), ("cdf", 2.0, Kv), ("density", 1.0, [0.7 * S0, S0, 1.3 * S0]),
                 ("density", 1.0, [0.85 * S0, 1.1 * S0, 1.6 * S0]),  # same maturity, same number of points, other points
                 ("density_log", 0.5, [math.log(0.9 * S0), math.log(1.2 * S0)]), ("price-call", 1.0, [S0]),
                 ("butterfly", 0.5, [0.9 * S0, S0, 1.1 * S0]), ("forward", 2.0, Kv), ("call", 1.0, Kv), ("price-put", 2.0, [1.1 * S0])]
-    return q, 4, ["other", "copy", "set-r", "set-d", "model-routes"]
+    return q, 4, ["other", "copy", "copy1", "dill", "set-r", "set-d", "model-routes"]
 
 
 def _check_pricer_history(sh, case):
     """Ordered sequences of steps on ONE pricer object; a step is a query of the menu or a state-changing public operation
     (`other`: a second pricer of the same class - same and other constants - on ANOTHER model asked at the same maturities;
-    `copy`: the pricer replaced by its deepcopy; `set-r` / `set-d`: the public attribute of the pricer's model re-assigned;
+    `copy` / `copy1` / `dill`: the pricer replaced by its deepcopy / copy.copy / dill round trip; `set-r` / `set-d`: the public attribute of the pricer's model re-assigned;
     `model-routes`: model.cdf / model.density of the pricer's model, i.e. further pricers on the same model; `set-alpha`: the FFT
     pricer's damping re-assigned).  The last step is a query; its answer must equal the answer of a freshly constructed pricer on a
     freshly constructed model (with the re-assigned values) - bit for bit, 1e-12 max(K, S0) when an attribute was re-assigned.
@@ -954,6 +1005,12 @@ def _check_pricer_history(sh, case):
                             o.density(T, Ko)
             elif op == "copy":
                 state[0] = copy.deepcopy(pricer)
+            elif op == "copy1":
+                state[0] = copy.copy(pricer)
+            elif op == "dill":
+                import dill
+
+                state[0] = dill.loads(dill.dumps(pricer))
             elif op in ("set-r", "set-d"):
                 m = model_of(pricer)
                 if m is None:
@@ -1048,6 +1105,259 @@ def _check_pricer_history(sh, case):
     sh.nontriv()
 
 
+# ----------------------------------------------------------------------------------------------------------------------
+# sub-check: argument forms, long vectors, caller's arrays, copies
+# ----------------------------------------------------------------------------------------------------------------------
+
+# forms which the unchanged tree rejects with a TypeError (the entry point divides a float by the container / multiplies it):
+# outside the alphabet, counted
+FORMS_REJECTED = {(e, f) for e in ("COSPricer.put", "COSPricer.call", "COSPricer.digital", "COSPricer.cdf", "COSPricer.price-call",
+                                   "ExponentialOfLevyModel.cdf", "CFBlackScholes.forward") for f in ("list", "tuple")}
+FORMS_REJECTED.add(("COSPricer.price-call", "0-d-array"))
+
+
+def _check_forms(sh, case):
+    """Every public entry point of the three pricers and the two model-level routes, asked
+      A. with ONE long strike vector (more strikes than `entries` / n, n = number of COS terms - beyond any block size a
+         vectorised implementation may use) against element-wise scalar calls on a sub-lattice that contains the first three and
+         the last twelve strikes (FFT: four strikes, a transform per scalar call);
+      B. with every legal form of the strike argument (integer-dtype array, list, tuple, shape (1,n), Python int, numpy float /
+         int scalar, 0-d array, one-element array, empty array) and of the maturity (Python int, numpy scalar, 0-d array), and by
+         keyword, against the usual form (float array of shape (n,) / Python float);
+      C. with the caller's arrays compared before / after the call, and modified after the call (the next answer must not change);
+      D. through copy.copy / copy.deepcopy / a dill round trip of the pricer and of the model, also after the original's model was
+         re-parametrised (deep copies must not follow it).
+    Differential oracle: same answer up to 1e-12 max(K, S0) (prices) / 1e-12 (probabilities, densities times s); bit for bit for
+    copies."""
+    import copy
+
+    import dill
+
+    from rpylib.numerical.cosmethod import COSPricer
+    from rpylib.numerical.fft import FFTPricer
+    from rpylib.product.payoff import PayoffType, Vanilla
+    from rpylib.product.product import Product
+    from rpylib.product.underlying import Spot
+
+    spec, T = case["spec"], float(case["T"])
+    icls = _icls(spec)
+    cos_nl = case.get("cos")
+    S0, r, d = float(spec["spot"]), float(spec["r"]), float(spec["d"])
+    model = A.make_model(spec)
+
+    def mk_cos(m):
+        return COSPricer(m) if cos_nl is None else COSPricer(m, n=int(cos_nl[0]), l=cos_nl[1])
+
+    cp, fp = mk_cos(model), FFTPricer(model)
+    cfp = getattr(model, "closed_form", None) if spec["family"] == "bs" else None
+    a, b = _interval(cp, model, T)
+    if not (a < 0.0 < b):
+        sh.count("outside_box:range-does-not-straddle-zero")
+        return
+    hw = 0.5 * (b - a)
+    n = int(getattr(cp, "n", 10_000))
+    ctx = {"model": A.model_label(spec), "T": T, "cos_n_l": cos_nl}
+    sh.cls(f"forms:{icls}:n={n}")
+
+    def product(K, T_):
+        return Product(payoff_underlying=Spot(), payoff=Vanilla(strike=K, payoff_type=PayoffType.CALL), maturity=T_)
+
+    # entry -> (function of (x, T), kind of x: "K" strike / "s" spot level / "u" log spot level, natural scale)
+    entries = {
+        "COSPricer.put": (lambda x, t: cp.put(x, t), "K", "price"),
+        "COSPricer.call": (lambda x, t: cp.call(x, t), "K", "price"),
+        "COSPricer.digital": (lambda x, t: cp.digital(x, t), "K", "unit"),
+        "COSPricer.forward": (lambda x, t: cp.forward(x, t), "K", "price"),
+        "COSPricer.cdf": (lambda x, t: cp.cdf(t, x), "K", "unit"),
+        "COSPricer.price-call": (lambda x, t: cp.price(product(x, t)), "K", "price"),
+        "COSPricer.density": (lambda x, t: cp.density(t, x), "s", "dens"),
+        "COSPricer.density_log": (lambda x, t: cp.density_log(t, x), "u", "unit"),
+        "FFTPricer.call": (lambda x, t: fp.call(x, t), "K", "price"),
+        "FFTPricer.put": (lambda x, t: fp.put(x, t), "K", "price"),
+    }
+    if cos_nl is None:
+        entries["ExponentialOfLevyModel.cdf"] = (lambda x, t: model.cdf(t, x), "K", "unit")
+        entries["ExponentialOfLevyModel.density"] = (lambda x, t: model.density(t)(x), "s", "dens")
+    if cfp is not None and cos_nl is None:
+        entries["CFBlackScholes.call"] = (lambda x, t: cfp.call(x, t), "K", "price")
+        entries["CFBlackScholes.put"] = (lambda x, t: cfp.put(x, t), "K", "price")
+        entries["CFBlackScholes.digital"] = (lambda x, t: cfp.digital(x, t), "K", "unit")
+        entries["CFBlackScholes.forward"] = (lambda x, t: cfp.forward(x, t), "K", "price")
+
+    def run(name, x, t):
+        with warnings.catch_warnings(), np.errstate(all="ignore"):
+            warnings.simplefilter("ignore")
+            return np.asarray(entries[name][0](x, t), dtype=float).ravel()
+
+    def tol_of(name, Kabs):
+        scale = entries[name][2]
+        if scale == "price":
+            return 1e-12 * np.maximum(np.abs(Kabs), S0)
+        if scale == "dens":
+            return 1e-12 / np.minimum(np.abs(Kabs), S0)  # density in s: 1e-12 on s * density
+        return 1e-12 + 0.0 * np.abs(Kabs)
+
+    def conv(name, K):
+        return np.log(K) if entries[name][1] == "u" else np.array(K, dtype=float, copy=True)  # never the check's own array
+
+    def compare(sub_, name, failure, got, want, Kabs, extra=None):
+        if got.shape != want.shape:
+            sh.count("evaluations")
+            sh.violation(f"{PID}:{sub_}:{name}:{failure}:wrong-shape:{icls}", f"{name}: {failure}: {got.size} values instead of {want.size}",
+                         dict(ctx, **(extra or {})))
+            return
+        if got.size == 0:
+            sh.count("evaluations")
+            return
+        _Rep(sh, icls, dict(ctx, **(extra or {}))).close(sub_, name, failure, got, want, tol_of(name, Kabs), Kabs)
+
+    # ------------------------------------------------------------------ A. long vectors
+    for name in entries:
+        n_e = MODEL_CDF_N if name == "ExponentialOfLevyModel.cdf" else n  # the number of terms of the pricer behind the entry
+        m_long = int(math.ceil(1.07 * int(case.get("entries", 2 ** 22)) / n_e)) + 3
+        sh.count("long_vector_strikes", m_long)
+        Kl = S0 * np.exp(np.linspace(-0.5 * hw, 0.5 * hw, m_long))
+        sub_idx = sorted(set([0, 1, 2] + list(range(0, m_long, 7)) + list(range(m_long - 12, m_long))))
+        fft_idx = [0, m_long // 2, m_long - 2, m_long - 1]
+        xs = conv(name, Kl)
+        try:
+            vec = run(name, xs.copy(), T)
+        except Exception as e:  # noqa: BLE001
+            sh.violation(f"{PID}:long-vector:{name}:raises-{type(e).__name__}:{icls}", f"{name} with {m_long} strikes raised {type(e).__name__}: {e}", ctx)
+            continue
+        if vec.size != m_long:
+            sh.violation(f"{PID}:long-vector:{name}:wrong-shape:{icls}", f"{name} with {m_long} strikes returned {vec.size} values", ctx)
+            continue
+        idx = fft_idx if name.startswith("FFTPricer") else sub_idx
+        try:
+            el = np.array([float(run(name, float(xs[i]), T)[0]) for i in idx])
+        except Exception as e:  # noqa: BLE001
+            sh.violation(f"{PID}:long-vector:{name}:scalar-call-raises-{type(e).__name__}:{icls}", f"{name} with a scalar raised {type(e).__name__}: {e}", ctx)
+            continue
+        compare("long-vector", name, "vectorised-call-differs-from-element-wise-calls", vec[idx], el, Kl[idx], {"strikes": m_long})
+
+    # ------------------------------------------------------------------ B. argument forms
+    Kf = np.array([0.8 * S0, S0, 1.25 * S0])
+    integral = bool(np.all(Kf == np.round(Kf)))
+    vforms = {"list": lambda x: [float(v) for v in x], "tuple": lambda x: tuple(float(v) for v in x), "shape-1-n": lambda x: x.reshape(1, -1).copy()}
+    sforms = {"numpy-float": lambda v: np.float64(v), "0-d-array": lambda v: np.array(float(v)), "one-element-array": lambda v: np.array([float(v)])}
+    tforms = {"numpy-float-maturity": lambda t: np.float64(t), "0-d-array-maturity": lambda t: np.array(float(t))}
+    if float(T) == int(T):
+        tforms["int-maturity"] = lambda t: int(t)
+    for name in entries:
+        kind = entries[name][1]
+        xs = conv(name, Kf)
+        ref = run(name, xs.copy(), T)
+        sref = run(name, float(xs[1]), T)
+        vf, sf = dict(vforms), dict(sforms)
+        if integral and kind != "u":
+            vf["int-dtype-array"] = lambda x: np.array([int(v) for v in x])
+            sf["python-int"] = lambda v: int(v)
+            sf["numpy-int"] = lambda v: np.int64(int(v))
+        for fname, mkf in list(vf.items()) + [("empty", None)] + list(sf.items()) + list(tforms.items()):
+            try:
+                if fname == "empty":
+                    got, want, Kabs = run(name, np.array([], dtype=float), T), np.array([], dtype=float), np.array([])
+                elif fname in vf:
+                    got, want, Kabs = run(name, mkf(xs), T), ref, Kf
+                elif fname in sf:
+                    got, want, Kabs = run(name, mkf(xs[1]), T), sref, Kf[1:2]
+                else:
+                    got, want, Kabs = run(name, xs.copy(), mkf(T)), ref, Kf
+            except Exception as e:  # noqa: BLE001
+                if (name, fname) in FORMS_REJECTED and isinstance(e, TypeError):
+                    sh.count(f"form_outside_alphabet:{fname}")
+                else:
+                    sh.violation(f"{PID}:forms:{name}:raises-{type(e).__name__}:{fname}:{icls}", f"{name} with the argument form {fname} raised {type(e).__name__}: {e}", ctx)
+                continue
+            compare("forms", name, f"differs-from-usual-form:{fname}", got, want, Kabs)
+    # keywords (the documented parameter names)
+    kw = {
+        "COSPricer.put": lambda: cp.put(strikes=Kf.copy(), time=T), "COSPricer.call": lambda: cp.call(strikes=Kf.copy(), time=T),
+        "COSPricer.digital": lambda: cp.digital(strikes=Kf.copy(), time=T), "COSPricer.forward": lambda: cp.forward(strikes=Kf.copy(), time=T),
+        "COSPricer.cdf": lambda: cp.cdf(time=T, x=Kf.copy()), "COSPricer.density": lambda: cp.density(time=T, s=Kf.copy()),
+        "COSPricer.density_log": lambda: cp.density_log(time=T, u=np.log(Kf)),
+        "FFTPricer.call": lambda: fp.call(strike=Kf.copy(), maturity=T), "FFTPricer.put": lambda: fp.put(strike=Kf.copy(), maturity=T),
+    }
+    if cfp is not None and cos_nl is None:
+        kw["CFBlackScholes.call"] = lambda: cfp.call(strike=Kf.copy(), maturity=T)
+        kw["CFBlackScholes.digital"] = lambda: cfp.digital(strike=Kf.copy(), maturity=T)
+    for name, f in kw.items():
+        try:
+            with warnings.catch_warnings(), np.errstate(all="ignore"):
+                warnings.simplefilter("ignore")
+                got = np.asarray(f(), dtype=float).ravel()
+        except TypeError:
+            sh.count("form_outside_alphabet:keyword")  # parameter names are not part of the statement
+            continue
+        compare("forms", name, "differs-from-usual-form:keyword", got, run(name, conv(name, Kf), T), Kf)
+
+    # ------------------------------------------------------------------ C. the caller's arrays
+    for name in entries:
+        xs = conv(name, Kf)
+        arg = xs.copy()
+        r1 = run(name, arg, T)
+        sh.count("evaluations")
+        if not np.array_equal(arg, xs):
+            sh.violation(f"{PID}:forms:{name}:modifies-the-callers-array:{icls}", f"{name} changed its strike argument from {xs.tolist()} to {arg.tolist()}", ctx)
+            continue
+        arg *= 1.37  # the caller re-uses its array
+        arg[0] = -1.0
+        r2 = run(name, xs.copy(), T)
+        sh.count("evaluations")
+        if not np.array_equal(r1, r2):
+            sh.violation(f"{PID}:forms:{name}:keeps-a-reference-to-the-callers-array:{icls}",
+                         f"{name}: after the caller modified the array of an earlier call the same query answers {r2.tolist()} instead of {r1.tolist()}", ctx)
+
+    # ------------------------------------------------------------------ D. copies
+    base = {name: run(name, conv(name, Kf), T) for name in entries}
+    for cname, cpy in (("copy.copy", copy.copy), ("copy.deepcopy", copy.deepcopy), ("dill", lambda o: dill.loads(dill.dumps(o)))):
+        try:
+            cp2, fp2, m2 = cpy(cp), cpy(fp), cpy(model)
+            cf2 = cpy(cfp) if cfp is not None else None
+        except Exception as e:  # noqa: BLE001
+            sh.violation(f"{PID}:copies:{cname}:raises-{type(e).__name__}:{icls}", f"{cname} of a pricer / model raised {type(e).__name__}: {e}", ctx)
+            continue
+        cpm = mk_cos(m2)
+        answers = {"COSPricer.put": lambda: cp2.put(Kf.copy(), T), "COSPricer.digital": lambda: cp2.digital(Kf.copy(), T),
+                   "COSPricer.density": lambda: cp2.density(T, Kf.copy()), "FFTPricer.call": lambda: fp2.call(Kf.copy(), T)}
+        of_model = {"COSPricer.put": lambda: cpm.put(Kf.copy(), T), "COSPricer.call": lambda: cpm.call(Kf.copy(), T)}
+        if cos_nl is None:
+            of_model["ExponentialOfLevyModel.cdf"] = lambda: m2.cdf(T, Kf.copy())
+        if cf2 is not None and cos_nl is None:
+            answers["CFBlackScholes.call"] = lambda: cf2.call(Kf.copy(), T)
+            of_model["CFBlackScholes.put"] = lambda: m2.closed_form.put(Kf.copy(), T)
+        for what, table in (("pricer", answers), ("model", of_model)):
+            for name, f in table.items():
+                sh.count("evaluations")
+                try:
+                    with warnings.catch_warnings(), np.errstate(all="ignore"):
+                        warnings.simplefilter("ignore")
+                        got = np.asarray(f(), dtype=float).ravel()
+                except Exception as e:  # noqa: BLE001
+                    sh.violation(f"{PID}:copies:{name}:{cname}-of-the-{what}-raises-{type(e).__name__}:{icls}", f"{name} on a {cname} of the {what} raised {type(e).__name__}: {e}", ctx)
+                    continue
+                if name in base and not np.array_equal(got, base[name]):
+                    sh.violation(f"{PID}:copies:{name}:{cname}-of-the-{what}-answers-differently:{icls}",
+                                 f"{name} on a {cname} of the {what} answers {got.tolist()}, the original {base[name].tolist()}", ctx)
+        if cname != "copy.copy":
+            # deep copies do not follow the original: re-parametrise the original's model, ask the copy
+            model.d = d + 0.013
+            try:
+                for name, f in answers.items():
+                    sh.count("evaluations")
+                    with warnings.catch_warnings(), np.errstate(all="ignore"):
+                        warnings.simplefilter("ignore")
+                        got = np.asarray(f(), dtype=float).ravel()
+                    if name in base and not np.array_equal(got, base[name]):
+                        sh.violation(f"{PID}:copies:{name}:{cname}-of-the-pricer-follows-the-original-model:{icls}",
+                                     f"{name} on a {cname} of the pricer answers {got.tolist()} after the ORIGINAL model's d was re-assigned; before: {base[name].tolist()}", ctx)
+            finally:
+                model.d = d
+    sh.outcome((icls, n, round(T, 4)))
+    sh.nontriv()
+
+
 def post(total, tier):
     """Vacuity guard: the documented box must not be empty.  On Black-Scholes (sigma in [0.1,0.5], no series term) the a-priori
     budget depends only on the truncation range; if fewer than half of the lattice strikes are within tolerance the range
@@ -1069,5 +1379,7 @@ def check_case(sh, case):
         _check_cf_degenerate(sh, case)
     elif sub == "pricer-history":
         _check_pricer_history(sh, case)
+    elif sub == "forms":
+        _check_forms(sh, case)
     else:
         raise ValueError(sub)
